@@ -152,6 +152,11 @@ template<class Cf> struct Api<Cf, false> {
 		auto r = c.Insert(Item(k, id)); return { r.position, r.inserted };
 	}
 	static It add(Cont& c, It hint, int k, int id) { return c.Add(hint, Item(k, id)); }
+	// AddCrt<Creator, extraCheck = false>: the position is not compared with the neighbours (hints that break the order)
+	static It addRaw(Cont& c, It hint, int k, int id) {
+		typedef typename Cont::template Creator<Item&&> Crt;
+		return c.template AddCrt<Crt, false>(hint, Crt(c.GetMemManager(), Item(k, id)));
+	}
 	static size_t insertRange(Cont& c, const std::vector<KI>& v) {
 		std::vector<Item> items; for (auto& x : v) items.push_back(Item(x.first, x.second));
 		return c.Insert(items.begin(), items.end());
@@ -184,6 +189,10 @@ template<class Cf> struct Api<Cf, true> {
 		auto r = c.Insert(k, Val(id)); return { It(r.position), r.inserted };
 	}
 	static It add(Cont& c, It hint, int k, int id) { return c.Add(hint, k, Val(id)); }
+	static It addRaw(Cont& c, It hint, int k, int id) {
+		typedef typename Cont::template ValueCreator<Val&&> Crt;
+		return c.template AddCrt<Crt, false>(hint, static_cast<const int&>(k), Crt(c.GetMemManager(), Val(id)));
+	}
 	static size_t insertRange(Cont& c, const std::vector<KI>& v) {
 		std::vector<std::pair<int, Val>> items; for (auto& x : v) items.push_back(std::pair<int, Val>(x.first, Val(x.second)));
 		return c.Insert(items.begin(), items.end());
@@ -262,6 +271,7 @@ struct Box {
 	virtual void bounds(int sl, int k, size_t& lb, size_t& ub, size_t& fi, bool& has, size_t& kc) = 0;
 	virtual size_t insert(int sl, int k, int id, bool byCopy, bool& inserted) = 0;
 	virtual size_t add(int sl, size_t hint, int k, int id, bool& hintInternal) = 0;
+	virtual size_t addRaw(int sl, size_t hint, int k, int id) = 0;
 	virtual size_t insertRange(int sl, const std::vector<KI>& v) = 0;
 	virtual size_t removeKey(int sl, int k) = 0;
 	virtual size_t removeIdx(int sl, size_t i, int& cls) = 0;
@@ -350,6 +360,7 @@ struct BoxT : Box {
 		hintInternal = Cf::set(slots[sl]).mRootNode && !A::rawNode(h)->IsLeaf();
 		return indexOf(sl, A::add(slots[sl], h, k, id));
 	}
+	size_t addRaw(int sl, size_t hint, int k, int id) override { return indexOf(sl, A::addRaw(slots[sl], iterAt(sl, hint), k, id)); }
 	size_t insertRange(int sl, const std::vector<KI>& v) override { return A::insertRange(slots[sl], v); }
 	size_t removeKey(int sl, int k) override { return A::removeKey(slots[sl], k); }
 	size_t removeIdx(int sl, size_t i, int& cls) override {
@@ -880,6 +891,51 @@ struct Runner {
 		queryAll(1);
 	}
 
+	// hints that break the order (AddCrt with extraCheck = false): pvAdd and Remove(iter) are positional, so the
+	// sequence must still be "insert at that index" / "erase at that index"; searches are only compared with the model
+	void rawScenario(int sl, int steps) {
+		s.comment(name + " hinted add with arbitrary (order-breaking) hints");
+		if (box.shape(sl).text != "null") opClear(sl);
+		std::vector<KI> seq;
+		auto check = [&] (const char* what) {
+			ShapeInfo si = box.shape(sl);
+			op(fmt("shape %d", sl)); s.res(si.text);
+			std::vector<KI> fwd, bwd;
+			bool ok = box.traverse(sl, fwd, bwd, seq.size() + 2);
+			std::vector<KI> rev(seq.rbegin(), seq.rend());
+			if (!ok || fwd != seq || bwd != rev || box.count(sl) != seq.size())
+				c.fail("C02 positional %s on an unsorted tree: forward [%s] backward [%s], expected forward [%s]; cfg=%s seed=%llu op#%llu",
+					what, seqText(fwd).c_str(), seqText(bwd).c_str(), seqText(seq).c_str(), name.c_str(), (unsigned long long)c.seed, (unsigned long long)opNo);
+			op(fmt("fwd %d", sl)); s.res(seqText(fwd));
+			op(fmt("bwd %d", sl)); s.res(seqText(bwd));
+			int k = (int)rng.below(60);
+			size_t lb, ub, fi, kc; bool has;
+			box.bounds(sl, k, lb, ub, fi, has, kc);	// no oracle: the sequence is not sorted
+			op(fmt("q %d %d", sl, k)); s.res(fmt("lb=%zu ub=%zu find=%zu has=%d kc=%zu", lb, ub, fi, has ? 1 : 0, kc));
+		};
+		for (int i = 0; i < steps; ++i) {
+			if (seq.empty() || rng.chance(2, 3)) {
+				size_t h = (size_t)rng.below(seq.size() + 1); int k = (int)rng.below(60), id = nextId++;
+				size_t pos = box.addRaw(sl, h, k, id);
+				op(fmt("add %d %zu %d %d", sl, h, k, id)); s.res(fmt("pos=%zu n=%zu", pos, box.count(sl)));
+				seq.insert(seq.begin() + (ptrdiff_t)h, KI(k, id));
+				if (pos != h) c.fail("C02 hinted add (arbitrary hint): index %zu returned %zu; cfg=%s seed=%llu op#%llu", h, pos, name.c_str(), (unsigned long long)c.seed, (unsigned long long)opNo);
+				c.stats.count("op.hinted_add_arbitrary_hint");
+				check("add");
+			}
+			else {
+				size_t i0 = (size_t)rng.below(seq.size()); int cls;
+				size_t pos = box.removeIdx(sl, i0, cls);
+				op(fmt("remi %d %zu", sl, i0)); s.res(fmt("pos=%zu n=%zu", pos, box.count(sl)));
+				seq.erase(seq.begin() + (ptrdiff_t)i0);
+				if (pos != i0) c.fail("C02 remove by iterator (unsorted tree): index %zu returned %zu; cfg=%s seed=%llu op#%llu", i0, pos, name.c_str(), (unsigned long long)c.seed, (unsigned long long)opNo);
+				c.stats.count("op.remove_iter_unsorted");
+				check("remove");
+			}
+		}
+		box.clear(sl); op(fmt("clear %d", sl)); s.res("ok");
+	}
+
 	void run() {
 		int cap = (int)box.cap;
 		int nSmall = cap * 2 + 3;
@@ -906,6 +962,7 @@ struct Runner {
 		mergeScenarios(nSmall, c.thorough ? nMed : std::max(nSmall * 3, nMed / 2));
 		opDropExt();
 		for (int sl = 0; sl < 4; ++sl) opClear(sl);
+		rawScenario(3, c.thorough ? 160 : 40);
 		std::string t; for (auto& r : recent) t += r + "; ";
 		c.stats.sample(name + ": ... " + t, 8);
 	}
